@@ -320,21 +320,35 @@ func tokenizeForSemantics(content string) []semanticToken {
 			}
 		}
 
-		length := uint32(lsputil.UTF16Len(tok.Value))
-		if tok.Type == parser.TokenComment {
-			length++
-		}
-
 		tokens = append(tokens, semanticToken{
 			line:      uint32(tok.Pos.Line - 1),
 			col:       uint32(tok.Pos.Column - 1),
-			length:    length,
+			length:    uint32(lexemeLength(content, tok)),
 			tokenType: semType,
 			modifiers: modifiers,
 		})
 	}
 
 	return tokens
+}
+
+// lexemeLength returns the number of UTF-16 code units that tok occupies in content.
+func lexemeLength(content string, tok parser.Token) int {
+	switch tok.Type {
+	case parser.TokenComment:
+		// the value starts after the semicolon
+		return lsputil.UTF16Len(tok.Value) + 1
+	case parser.TokenCode:
+		// the value of a code has no parentheses, the token in the document has
+		return lsputil.UTF16Len(sourceText(content, tok))
+	default:
+		return lsputil.UTF16Len(tok.Value)
+	}
+}
+
+// sourceText returns the characters of tok as they are written in content.
+func sourceText(content string, tok parser.Token) string {
+	return strings.TrimSpace(content[tok.Pos.Offset:tok.End.Offset])
 }
 
 func extractTagTokensFromComment(tok parser.Token) []semanticToken {
